@@ -131,19 +131,19 @@ class Engine:
         """is the current path condition satisfiable? ('sat'/'unsat'/'unknown')"""
         return str(self._check())
 
-    def prove(self, goal, extra=(), timeout_ms=None, want_model=True):
+    def prove(self, goal, extra=(), timeout_ms=None, pc_upto=None):
         """is pc & extra & not goal unsat?  returns (verdict, model)"""
         g = goal.t if isinstance(goal, SB) else goal
         if isinstance(g, (bool, np.bool_)):
             g = z3.BoolVal(bool(g))
-        return self.solve(list(extra) + [z3.Not(g)], timeout_ms=timeout_ms)
+        return self.solve(list(extra) + [z3.Not(g)], timeout_ms=timeout_ms, pc_upto=pc_upto)
 
-    def solve(self, formulas, timeout_ms=None, with_pc=True):
+    def solve(self, formulas, timeout_ms=None, with_pc=True, pc_upto=None):
         """satisfiability of pc & formulas. returns (verdict, model)"""
         s = z3.Solver()
         s.set("timeout", timeout_ms or self.timeout_ms)
         if with_pc:
-            s.add(*self.pc)
+            s.add(*(self.pc if pc_upto is None else self.pc[:pc_upto]))
         s.add(*formulas)
         t0 = time.time()
         r = s.check()
@@ -197,6 +197,8 @@ class S:
     def _b(self, o, f):
         if isinstance(o, np.ndarray) and o.ndim > 0:
             return NotImplemented
+        if isinstance(o, (float, np.floating)) and not math.isfinite(o) and z3.is_rational_value(self.t):
+            return f(float(self), float(o))  # e.g. np.ones(n) * np.inf for default upper bounds
         try:
             return S(z3.simplify(f(self.t, lift(o))))
         except TypeError:
@@ -810,6 +812,8 @@ _FUNCS = {
     np.mean: smean,
     np.prod: sprod,
     np.nanmin: snanmin,
+    np.isposinf: lambda a, out=None: np.frompyfunc(lambda v: (not isinstance(v, (S, SB))) and bool(np.isposinf(v)), 1, 1)(np.asarray(a).view(np.ndarray)).astype(bool),
+    np.isneginf: lambda a, out=None: np.frompyfunc(lambda v: (not isinstance(v, (S, SB))) and bool(np.isneginf(v)), 1, 1)(np.asarray(a).view(np.ndarray)).astype(bool),
 }
 
 
